@@ -1,7 +1,8 @@
 # Human-written parts of MANIFEST.json, per property.
 ENGINES = [
+    dict(name="E6 inputs", path="harness/vec, harness/t_inputs, harness/t_sim", serves_properties=["C15", "C19"], kind_free_text="explicit EC block-tree model behind ec.Backend, manifest/certificate-history generators; simulator fault injection through adversary.Generator"),
     dict(name="E1 vnet", path="harness/vnet, harness/t_net", serves_properties=["C01", "C02", "C03", "C06", "C07"], kind_free_text="consensus world: real participants behind harness hosts, virtual clock, generated scheduler with six profiles, adaptive Byzantine coalition using an evidence pool, runtime monitors, timely closing regime"),
-    dict(name="E3 store", path="harness/vds, harness/t_store", serves_properties=["C09", "C10", "C17"], kind_free_text="deterministic fault-injecting datastore (write counting, crash after k writes, snapshot/restore, permutable query order) + rapid state machines against an in-memory store model"),
+    dict(name="E3 store", path="harness/vds, harness/t_store", serves_properties=["C09", "C10", "C11", "C17"], kind_free_text="deterministic fault-injecting datastore (write counting, crash after k writes, snapshot/restore, permutable query order) + rapid state machines against an in-memory store model"),
     dict(name="E2 structured", path="harness/t_certs, harness/t_msgs, harness/t_codec", serves_properties=["C04", "C05", "C13", "C14"], kind_free_text="grammar-directed rapid generators (vgen) + field-level corruption operators, differential against reference models (vref)"),
     dict(name="E5 arith", path="harness/t_arith", serves_properties=["C08"], kind_free_text="exhaustive loops + rapid generators over big-integer power tables and real tallies"),
 ]
@@ -10,6 +11,30 @@ PENDING = "check under construction in this session; will be claimed once its ha
 NOT_APPLICABLE = {("C%02d" % i): PENDING for i in range(1, 21)}
 
 TEXT = {
+    "C11": dict(
+        engine="E3 store",
+        technique="stateful property-based testing (rapid) on a real directory + enumeration of torn-write offsets, against an in-memory WAL model",
+        level_text="Generated histories of append (1 B - 400 KiB, crossing the 1 MiB rotation threshold) / Rotate / Close / Purge / reopen / crash / crash during an append with the first k bytes of the record written (every k for records <= 4 KiB in the thorough tier, boundary and sampled offsets otherwise). After every reopen and purge, All() must return exactly the acknowledged, unpurged entries, byte-identical, in append order per file, a torn entry only if complete; Purge keeps every entry at or above the epoch and removes every closed file entirely below it.",
+        level_note="fsync reaching the medium is assumed (no power-cut simulator below the file system): the check decides recovery logic at file-content level. File names come from the wall clock inside the code; the harness learns them from the directory listing.",
+    ),
+    "C14": dict(
+        engine="E2 structured",
+        technique="property-based testing (rapid): differential against independent encoders, metamorphic field perturbation, codec round trips, structural mutation fuzzing of valid encodings with allocation measurement",
+        level_text="Signing bytes and VRF inputs equal an independent implementation of the documented layout and change under each of 15 single-field perturbations; chain keys from Key / KeysForPrefixes / AllPrefixes / Prefix(i).Key equal an independent merkle computation for every prefix of every length 1..128 (deterministic sweep + generated chains with 760-byte keys); all 16 wire/storage types round-trip through raw CBOR, encoding.CBOR and encoding.ZSTD field-wise and byte-wise; mutated encodings (truncate, flip, inflated length headers, splice, append) and over-expanding zstd frames never panic, never decode a strict prefix, never allocate beyond 64 MiB.",
+        level_note="Independent encoders live in harness/vref (keccak/blake2b from x/crypto). Allocation = runtime.MemStats.TotalAlloc around one decode. Native coverage-guided fuzzing is not part of the quick tier.",
+    ),
+    "C15": dict(
+        engine="E6 inputs",
+        technique="property-based testing (rapid): generated EC block trees, certificate histories and manifests vs an explicit EC reference model; metamorphic invariance of committees",
+        level_text="The node's consensus-inputs component runs over a model ec.Backend (null rounds, forks before/at/after the base, head behind the base, 260-tipset chains), a real certstore with generated certificate histories, generated manifests and clock positions. GetProposal must equal the model's chain exactly and commit to the next committee; GetCommittee must equal the look-back rule (table and beacon) and must not change when only head, forks and clock change.",
+        level_note="The unexported component is constructed through a build-time accessor. The bootstrap tipset is final by assumption (no fork branches off before the requested bootstrap epoch). Committee look-back >= 2.",
+    ),
+    "C19": dict(
+        engine="E6 inputs",
+        technique="property-based testing (rapid): fault injection through the simulator's host interface vs 'error iff invalid'; differential certchain vs node rule over the EC model",
+        level_text="(a) sim.Simulation runs with a harness adversary that hands the simulator forged / under-powered / mis-labelled decisions (and a conflicting fully signed decision for an honest participant): Run must fail iff something invalid was injected, clean controls pass. (b) certchain over the model EC: committees equal the node rule, certificates commit to those committees, validate, are accepted by a real store, and the node's GetCommittee over that store agrees.",
+        level_note="(a) uses the simulator's own fake signing backend (any member key can sign), under-powered subsets are only asserted when below 2/3 by scaled and raw power. (b) EC model without null rounds.",
+    ),
     "C06": dict(
         engine="E1 vnet",
         technique="property-based testing (rapid): generated pre-stabilisation schedules and Byzantine histories followed by a harness-owned timely regime; bounded-liveness oracle",
